@@ -9,6 +9,7 @@ from typing import Iterable, Iterator
 
 from .._colors import get_colors, highlight
 from ..linter import Checker
+from ..linter._checker import read_source
 from ._base import Command
 from ._common import get_paths
 
@@ -78,7 +79,7 @@ class LintCommand(Command):
     def get_errors(paths: Iterable[str]) -> Iterator[dict]:
         for arg in paths:
             for path in get_paths(Path(arg)):
-                content = path.read_text()
+                content = read_source(path)
                 checker = Checker(
                     filename=str(path),
                     tree=ast.parse(content),
